@@ -22,6 +22,7 @@ from sa import core, aggtables as AT
 from sa.pyfront import Program
 
 RULES = {
+    "R-C04-i": "a weight given as a per-row array or as a bare scalar takes part in the constructor's row arrays (a dropped scalar weight loses its missingness and its zero)",
     "R-C04-h": "a region that receives weight or fact values is never an integer region nor typed after the weights (a weighted valid count that wraps to 0 makes a fully valid cell missing)",
     "R-C04-g": "aggregate constructors do not overwrite the caller's arrays (imported from the C17 analysis): zero-filling the caller's NaN-marked rows in place erases the missing markers, so a later aggregate over the same array - in another report format or the other cube - sees no missing cell",
     "R-C04-f": "the counters the array cube fills (valid / missing counts, per fill branch incl. several fact columns) are the same reducers as the index cube's: the shared missing-cell predicate then reads the same quantities in both cubes",
@@ -69,6 +70,11 @@ def main(tier):
     for rule, status, where, cons, detail, wit in CK.items:
         rep.add(rule, where, cons, status, detail, True, wit)
     rep.floor("R-C04-h", 60, nk)
+    CW = AT.Collector()
+    nw = AT.rule_weights_used(prog, CW, "R-C04-i")
+    for rule, status, where, cons, detail, wit in CW.items:
+        rep.add(rule, where, cons, status, detail, True, wit)
+    rep.floor("R-C04-i", 10, nw)
     rep.floor("R-C04-a", 100, n_a)
     rep.floor("R-C04-b", 100, n_b)
     rep.floor("R-C04-c", 20, n_c)
